@@ -1,4 +1,5 @@
 import HdVerif.Proofs.SRContentSeq
+import HdVerif.Proofs.SRSeqHeap
 /-! # C14  A content sequence and its name index never disagree
 
 Property theorems only.  They are about the executable model `Model/SRContentSeq.lean` of
@@ -221,6 +222,70 @@ theorem queries_are_regenerated_programs (s : Seq) :
     (∀ x, index s x = execIndex Gen.csProg_index s x) ∧
     Gen.csContainsViaIndex = true :=
   ⟨find_is_program s, getNodes_is_program s, index_is_program s, contains_is_program⟩
+
+/-! ## Several sequences alive at once: no operation on one changes what another answers
+
+`Model/SRSeqHeap.lean` keeps the per-name lists of the index in a store (`heap : Loc → List Item`; a sequence holds
+`name ↦ Option Loc`) and re-interprets the regenerated method programs there: appends and deletions happen IN
+PLACE at the sequence's location for the name, a new name allocates a fresh list.  Sharing of a list between two
+sequences is expressible in that model (`hShareFrom`, what `self._lut.update(other._lut)` would do). -/
+section Pool
+open HdVerif.SRSeqHeap HdVerif.SRSeqHeapLemmas
+
+/-- **The store interpretation of the regenerated programs is the model**: run over the store, every operation
+shows — through `abs` — exactly the state and the refusal the functional model computes; and it writes only to
+locations the sequence owns or to fresh ones (`Good`). -/
+theorem store_interpretation_refines_model (σ : Store) (q : HSeq) (hw : Wf σ q) (op : HOp) :
+    SRSeqHeap.abs (hStep σ q op).1.1 (hStep σ q op).1.2 = (step (SRSeqHeap.abs σ q) op.toOp).1 ∧
+    (hStep σ q op).2 = (step (SRSeqHeap.abs σ q) op.toOp).2 ∧
+    Good σ q (hStep σ q op).1.1 (hStep σ q op).1.2 :=
+  hStep_refines σ q hw op
+
+/-- **Non-interference**: in a pool of sequences that share no list, any operation on member `i` (accepted or
+refused) leaves every other member's functional view — its list AND its index, hence every `find`, `index`, `in`,
+`get_nodes` — exactly as it was, and the pool still shares nothing. -/
+theorem non_interference (σ : Store) (pool : List HSeq) (hp : PoolWf σ pool) (i : Nat) (q : HSeq)
+    (hi : pool[i]? = some q) (op : HOp) :
+    PoolWf (hStep σ q op).1.1 (pool.set i (hStep σ q op).1.2) ∧
+    ∀ j p, j ≠ i → pool[j]? = some p →
+      SRSeqHeap.abs (hStep σ q op).1.1 p = SRSeqHeap.abs σ p ∧
+      (∀ n, find (SRSeqHeap.abs (hStep σ q op).1.1 p) n = find (SRSeqHeap.abs σ p) n) ∧
+      (∀ x, index (SRSeqHeap.abs (hStep σ q op).1.1 p) x = index (SRSeqHeap.abs σ p) x) := by
+  have hw : Wf σ q := hp.wf q (List.mem_of_getElem? hi)
+  obtain ⟨_, _, g⟩ := hStep_refines σ q hw op
+  obtain ⟨h1, h2⟩ := pool_step hp hi g
+  refine ⟨h1, fun j p hj hpj => ?_⟩
+  have e := h2 j p hj hpj
+  exact ⟨e, fun n => by rw [e], fun x => by rw [e]⟩
+
+/-- **A sequence constructed from another one shares nothing with it**: the regenerated constructor, run over the
+store on the items of a pool member (`ContentSequence(seq, …)`, `item.ContentSequence = seq`), yields — when it
+accepts — the sequence the functional constructor yields, with all its lists fresh: the pool plus the new
+sequence still shares nothing and no old member changed. -/
+theorem construction_from_a_sequence_is_independent (σ : Store) (pool : List HSeq) (hp : PoolWf σ pool) (p : HSeq)
+    (isRoot isSr : Bool) (s : Seq) (hc : construct p.items isRoot isSr = .ok s) :
+    ∃ σ' q', hRunInit p.items isRoot isSr σ = .ok (σ', q') ∧ SRSeqHeap.abs σ' q' = s ∧
+      PoolWf σ' (pool ++ [q']) ∧ ∀ m ∈ pool, SRSeqHeap.abs σ' m = SRSeqHeap.abs σ m := by
+  rw [construct_is_program] at hc
+  obtain ⟨σ', q', h1, h2, g⟩ := (hRunInit_refines p.items isRoot isSr σ).2 s hc
+  obtain ⟨h3, h4⟩ := pool_add hp g
+  exact ⟨σ', q', h1, h2, h3, h4⟩
+
+private def ia : Item := { name := 0, rel := some 0, isContainer := false, hasContent := false, uid := 1 }
+private def ib : Item := { name := 0, rel := some 0, isContainer := false, hasContent := false, uid := 2 }
+private def σ0 : Store := { heap := fun k => if k = 0 then [ia] else [], next := 1 }
+private def q1 : HSeq := { items := [ia], lut := fun n => if n = 0 then some 0 else none, isRoot := false, isSr := true }
+
+/-- **Sharing is expressible and is what breaks it**: let a second sequence take the dict entries of `q1` over
+(`hCloneShared`) and append a namesake to the SECOND sequence with the regenerated `append` program — then the
+FIRST sequence's index holds an item that is not in its list (its `find` returns it, its invariant is gone). -/
+theorem sharing_breaks_non_interference :
+    let r := hRunAppend [ib] σ0 (hCloneShared q1)
+    ((SRSeqHeap.abs r.1.1 q1).lut 0).map (·.uid) = [1, 2] ∧ (SRSeqHeap.abs r.1.1 q1).items.map (·.uid) = [1] ∧
+    ((SRSeqHeap.abs σ0 q1).lut 0).map (·.uid) = [1] := by
+  decide
+
+end Pool
 
 /-! ## Non-vacuity: a concrete history with colliding names on a non-root SR sequence
 (construct [a0, b1], insert c0 in front, extend [d1, e0], assign position 1, delete a slice, reverse). -/
